@@ -25,11 +25,23 @@ func sp_sketchInv(s *CountMinSketch) bool {
 // region capacities: window at least 1, nothing wraps, window + protected conserved
 func sp_capInv[K comparable, V any](t *TinyLfu[K, V]) bool {
 	return t.window.capacity >= 1 && t.window.capacity <= 1<<62 && t.slru.protected.capacity <= 1<<62 &&
-		t.window.capacity+t.slru.protected.capacity == gh_po_cap0(t) && t.capacity <= 1<<62
+		t.window.capacity+t.slru.protected.capacity == gh_po_cap0(t) && gh_po_cap0(t) <= 1<<62 && t.capacity <= 1<<62
+}
+
+// tracked entries carry a cost in [0, 2^62] (the property's domain is 1..MaxSize; see A-ORDER for updates)
+func op_weights[K comparable, V any](t *TinyLfu[K, V]) bool {
+	return all(func(x *Entry[K, V]) bool {
+		return imp(sp_tracked(t, x), x.policyWeight >= 0 && x.policyWeight <= 1<<62)
+	})
+}
+
+// the hill climber's step never exceeds 1/16 of the capacity in magnitude (so float->int is defined)
+func sp_stepInv[K comparable, V any](t *TinyLfu[K, V]) bool {
+	return t.step <= float32(t.capacity)*HILL_CLIMBER_STEP_PERCENT && -t.step <= float32(t.capacity)*HILL_CLIMBER_STEP_PERCENT
 }
 
 // every entry outside the three regions is unlinked and carries no region flag
-func sp_untrackedClean[K comparable, V any](t *TinyLfu[K, V]) bool {
+func op_clean[K comparable, V any](t *TinyLfu[K, V]) bool {
 	return all(func(x *Entry[K, V]) bool {
 		return imp(!sp_isRoot(x.flag.Flags) && !sp_tracked(t, x), x.meta.prev == nil && x.meta.next == nil && x.flag.Flags&(2|4|64) == 0)
 	})
@@ -42,13 +54,14 @@ func sp_totalInv[K comparable, V any](t *TinyLfu[K, V]) bool {
 // PolicyInv: the representation invariant of the eviction policy (C07)
 func sp_policyInv[K comparable, V any](t *TinyLfu[K, V]) bool {
 	return sp_tlfuShape(t) && sp_listInv(t.window) && sp_listInv(t.slru.probation) && sp_listInv(t.slru.protected) &&
-		sp_totalInv(t) && sp_untrackedClean(t) && sp_capInv(t)
+		sp_totalInv(t) && op_clean(t) && sp_capInv(t) && op_weights(t) && sp_stepInv(t)
 }
 
 // nothing about the tracked set, the weights or the sizes changed
 func sp_sameTracked[K comparable, V any](t *TinyLfu[K, V]) bool {
 	return all(func(x *Entry[K, V]) bool {
-		return sp_tracked(t, x) == old(sp_tracked(t, x)) && x.policyWeight == old(x.policyWeight)
+		return sp_tracked(t, x) == old(sp_tracked(t, x)) && x.policyWeight == old(x.policyWeight) &&
+			x.flag.Flags&^(2|4|64) == old(x.flag.Flags)&^(2|4|64)
 	}) &&
 		t.weightedSize == old(t.weightedSize)
 }
@@ -57,6 +70,7 @@ func sp_sameTracked[K comparable, V any](t *TinyLfu[K, V]) bool {
 
 // protected overflow is moved to probation
 func (t *TinyLfu[K, V]) spec_demoteFromProtected() {
+	reveal("op_clean", "op_weights")
 	requires("inv", sp_policyInv(t))
 	ensures("inv", sp_policyInv(t))
 	ensures("same", sp_sameTracked(t))
@@ -71,4 +85,142 @@ func (t *TinyLfu[K, V]) spec_demoteFromProtected_loop1() {
 	invariant("caps", t.window.capacity == old(t.window.capacity) && t.slru.protected.capacity == old(t.slru.protected.capacity))
 	invariant("window_same", all(func(x *Entry[K, V]) bool { return gh_po_in(t.window, x) == old(gh_po_in(t.window, x)) }))
 	decreases(t.slru.protected.count)
+}
+
+// window overflow is moved to probation; returns the first entry moved (nil if none)
+func (t *TinyLfu[K, V]) spec_evictFromWindow() (first *Entry[K, V]) {
+	reveal("op_clean", "op_weights")
+	requires("inv", sp_policyInv(t))
+	ensures("inv", sp_policyInv(t))
+	ensures("same", sp_sameTracked(t))
+	ensures("caps", t.window.capacity == old(t.window.capacity) && t.slru.protected.capacity == old(t.slru.protected.capacity))
+	ensures("fits", t.window.len <= int64(t.window.capacity))
+	ensures("first", first == nil || gh_po_in(t.slru.probation, first))
+	ensures("protected_same", all(func(x *Entry[K, V]) bool { return gh_po_in(t.slru.protected, x) == old(gh_po_in(t.slru.protected, x)) }))
+	return
+}
+
+func (t *TinyLfu[K, V]) spec_evictFromWindow_loop1(first *Entry[K, V]) {
+	invariant("inv", sp_policyInv(t))
+	invariant("same", sp_sameTracked(t))
+	invariant("caps", t.window.capacity == old(t.window.capacity) && t.slru.protected.capacity == old(t.slru.protected.capacity))
+	invariant("first", first == nil || gh_po_in(t.slru.probation, first))
+	invariant("protected_same", all(func(x *Entry[K, V]) bool { return gh_po_in(t.slru.protected, x) == old(gh_po_in(t.slru.protected, x)) }))
+	decreases(t.window.count)
+}
+
+// the eviction callback installed by the store (Store.removeEntry with reason EVICTED): it runs with the
+// policy lock held and leaves the three regions, their sizes and every region flag alone; it may set the
+// removed / deleted flags and touch timer-wheel links
+func (t *TinyLfu[K, V]) fspec_removeCallback(entry *Entry[K, V]) {
+	requires("locked", heldPolicy())
+	requires("entry", entry != nil && !sp_tracked(t, entry))
+	modifies("Entry.flag.Flags", "Entry.meta.wheelPrev", "Entry.meta.wheelNext",
+		"mapdom<map[K]*Entry>", "mapval<map[K]*Entry>", "maplen<map[K]*Entry>", "gh.owned", "gh.now", "Entry.value")
+	ensures("region_flags", all(func(x *Entry[K, V]) bool { return x.flag.Flags&(1|2|4|64) == old(x.flag.Flags)&(1|2|4|64) }))
+}
+
+// remove a tracked entry from its region
+func (t *TinyLfu[K, V]) spec_Remove(entry *Entry[K, V], callback bool) {
+	reveal("op_clean", "op_weights", "op_flags")
+	requires("inv", sp_policyInv(t))
+	requires("tracked", entry != nil && sp_tracked(t, entry))
+	ensures("inv", sp_policyInv(t))
+	ensures("removed", !sp_tracked(t, entry) && all(func(x *Entry[K, V]) bool { return imp(x != entry, sp_tracked(t, x) == old(sp_tracked(t, x))) }))
+	ensures("regions", all(func(x *Entry[K, V]) bool {
+		return imp(x != entry, gh_po_in(t.window, x) == old(gh_po_in(t.window, x)) && gh_po_in(t.slru.probation, x) == old(gh_po_in(t.slru.probation, x)) && gh_po_in(t.slru.protected, x) == old(gh_po_in(t.slru.protected, x)))
+	}))
+	ensures("labels", all(func(x *Entry[K, V]) bool {
+		return gh_po_ord(t.window, x) == old(gh_po_ord(t.window, x)) && gh_po_ord(t.slru.probation, x) == old(gh_po_ord(t.slru.probation, x)) && gh_po_ord(t.slru.protected, x) == old(gh_po_ord(t.slru.protected, x))
+	}))
+	ensures("total", t.weightedSize == old(t.weightedSize)-uint(entry.policyWeight))
+	ensures("counts", t.window.count+t.slru.probation.count+t.slru.protected.count == old(t.window.count+t.slru.probation.count+t.slru.protected.count)-1)
+	ensures("weights", all(func(x *Entry[K, V]) bool { return x.policyWeight == old(x.policyWeight) }))
+	ensures("caps", t.window.capacity == old(t.window.capacity) && t.slru.protected.capacity == old(t.slru.protected.capacity))
+}
+
+// ---- adaptive resizing ---------------------------------------------------------------------------------
+
+// the pending resize amount is within what the regions can give: window stays >= 1, protected >= 0
+func sp_amountOK[K comparable, V any](t *TinyLfu[K, V]) bool {
+	return t.amount <= int(t.slru.protected.capacity) && -t.amount <= int(t.window.capacity-1) && t.amount > -(1<<62)
+}
+
+func (t *TinyLfu[K, V]) spec_climb() {
+	requires("caps", sp_tlfuShape(t) && sp_capInv(t) && sp_stepInv(t))
+	modifies(t.hr, t.step, t.amount, t.hitsInSample, t.missesInSample)
+	ensures("clamp", sp_amountOK(t))
+	ensures("step", sp_stepInv(t))
+	ensures("samples", t.hitsInSample == 0 && t.missesInSample == 0)
+}
+
+// move entries from probation/protected to the window while they fit into amount; returns what is left
+func (t *TinyLfu[K, V]) spec_increaseWindow(amount int) (r int) {
+	flag("split_paths")
+	reveal("op_clean", "op_weights")
+	requires("inv", sp_policyInv(t))
+	requires("amount", amount >= 0 && amount <= 1<<62)
+	ensures("inv", sp_policyInv(t))
+	ensures("same", sp_sameTracked(t))
+	ensures("caps", t.window.capacity == old(t.window.capacity) && t.slru.protected.capacity == old(t.slru.protected.capacity))
+	ensures("left", r >= 0 && r <= amount)
+	return
+}
+
+func (t *TinyLfu[K, V]) spec_increaseWindow_loop1(amount int) {
+	invariant("inv", sp_policyInv(t))
+	invariant("same", sp_sameTracked(t))
+	invariant("caps", t.window.capacity == old(t.window.capacity) && t.slru.protected.capacity == old(t.slru.protected.capacity))
+	invariant("left", amount >= 0 && amount <= old(amount))
+	decreases(t.slru.probation.count, t.slru.protected.count)
+}
+
+func (t *TinyLfu[K, V]) spec_decreaseWindow(amount int) (r int) {
+	reveal("op_clean", "op_weights")
+	requires("inv", sp_policyInv(t))
+	requires("amount", amount >= 0 && amount <= 1<<62)
+	ensures("inv", sp_policyInv(t))
+	ensures("same", sp_sameTracked(t))
+	ensures("caps", t.window.capacity == old(t.window.capacity) && t.slru.protected.capacity == old(t.slru.protected.capacity))
+	ensures("left", r >= 0 && r <= amount)
+	return
+}
+
+func (t *TinyLfu[K, V]) spec_decreaseWindow_loop1(amount int) {
+	invariant("inv", sp_policyInv(t))
+	invariant("same", sp_sameTracked(t))
+	invariant("caps", t.window.capacity == old(t.window.capacity) && t.slru.protected.capacity == old(t.slru.protected.capacity))
+	invariant("left", amount >= 0 && amount <= old(amount))
+	decreases(t.window.count)
+}
+
+// apply the pending amount: window >= 1, no wrap-around, window + protected conserved
+func (t *TinyLfu[K, V]) spec_resizeWindow() {
+	reveal("op_clean", "op_weights")
+	requires("inv", sp_policyInv(t))
+	requires("amount", sp_amountOK(t))
+	ensures("inv", sp_policyInv(t))
+	ensures("same", sp_sameTracked(t))
+	ensures("conserved", t.window.capacity+t.slru.protected.capacity == old(t.window.capacity+t.slru.protected.capacity))
+	ensures("window_ge_1", t.window.capacity >= 1)
+}
+
+// ---- policy API -----------------------------------------------------------------------------------------
+
+// admission: pure with respect to the policy structure
+func (t *TinyLfu[K, V]) spec_admit(candidateKey, victimKey K) (r bool) {
+	requires("sketch", t.sketch != nil && t.hasher != nil && sp_sketchInv(t.sketch))
+	return
+}
+
+// a delivered read: the entry (if still tracked) moves to the MRU end of its region or is promoted
+func (t *TinyLfu[K, V]) spec_Access(item ReadBufItem[K, V]) {
+	flag("split_paths")
+	reveal("op_clean", "op_weights")
+	requires("inv", sp_policyInv(t))
+	requires("sketch", sp_sketchInv(t.sketch))
+	requires("entry", item.entry == nil || !sp_isRoot(item.entry.flag.Flags))
+	ensures("inv", sp_policyInv(t))
+	ensures("sketch", sp_sketchInv(t.sketch))
+	ensures("same", sp_sameTracked(t))
 }
